@@ -88,16 +88,16 @@ pub const EMPTY_SHA256: B32 = [
     0x27, 0xae, 0x41, 0xe4, 0x64, 0x9b, 0x93, 0x4c, 0xa4, 0x95, 0x99, 0x1b, 0x78, 0x52, 0xb8, 0x55,
 ];
 
-/// RFC 6962 §2.1 MTH over leaf *hashes* (n <= 4 written out; no recursion, no loops).
+/// RFC 6962 §2.1 MTH over leaf *hashes*: MTH({}) = H(), MTH({d}) = leaf hash,
+/// MTH(D[n]) = H(0x01 || MTH(D[0:k]) || MTH(D[k:n])) with k the largest power of two < n.
+/// Recursion on the (concrete) slice length; n <= 16.
 pub fn mth(h: &[B32]) -> B32 {
-    match h.len() {
-        0 => EMPTY_SHA256,
-        1 => h[0],
-        2 => h_node(&h[0], &h[1]),
-        3 => h_node(&h_node(&h[0], &h[1]), &h[2]),
-        4 => h_node(&h_node(&h[0], &h[1]), &h_node(&h[2], &h[3])),
-        _ => panic!("reference MTH written out for n <= 4 only"),
-    }
+    let n = h.len();
+    if n == 0 { return EMPTY_SHA256 }
+    if n == 1 { return h[0] }
+    let k = if n > 8 { 8 } else if n > 4 { 4 } else if n > 2 { 2 } else { 1 };
+    let (l, r) = h.split_at(k);
+    h_node(&mth(l), &mth(r))
 }
 
 // --- array-backed node table ----------------------------------------------------------------
